@@ -340,3 +340,11 @@ def fmt(a):
     if isinstance(a, tuple) and a and a[0] == "slot":
         return "%s%s" % (a[1][2], "".join("." + x for x in a[2]))
     return M.term_str(a)
+
+
+def run_thorough(ctx):
+    # whole-program who-may-call for the calls that alter process-wide state: only the child-side wrappers
+    deep_census(ctx, "R05.5", ["dup2", "dup3", "chdir", "fchdir", "setuid", "setgid", "setpgid", "setsid", "_exit", "exit", "umask", "chroot", "setresuid", "setresgid", "seteuid", "setegid"],
+                {"dup2": ["posix::dup2"], "chdir": ["posix::chdir"], "setuid": ["posix::setuid"], "setgid": ["posix::setgid"], "setpgid": ["posix::setpgid"], "_exit": ["posix::_exit"]})
+    # descriptors are closed only by their RAII owner
+    deep_census(ctx, "R05.4", ["close", "closefrom", "close_range"], {"close": ["<std::os::fd::OwnedFd as std::ops::Drop>::drop"]})
